@@ -69,7 +69,7 @@ impl<'a> Executor<'a> {
                 #(#executor_methods_declaration)*
             }
 
-            impl <#(#generics,)*> Executor<#(#generics,)*>
+            impl <#(#generics,)*> self::Executor<#(#generics,)*>
                 for #sylvia ::types::ExecutorBuilder<( #sylvia ::types::EmptyExecutorBuilderState, #contract )> #where_clause {
                 #(#types_implementation)*
                 #(#executor_methods_impl)*
